@@ -224,6 +224,7 @@ func (c *SyncMap) Restore(r io.Reader) (int, error) {
 			return n, err
 		}
 
+		c.t.entryRestored(e.E)
 		c.data.Store(string(e.K), &e)
 
 		n++
